@@ -54,6 +54,11 @@ def build():
 
     add("hq_scaler2", enc_kw(1, minimum_slice_size_scaler=2), "HQ lossy with slice_size_scaler 2", slices=(2, 1))
     add("hq_qindex", enc_kw(1, minimum_qindex=7), "HQ lossy with minimum qindex 7", slices=(2, 1))
+    import vc2_data_tables as _T
+    for idx in (7, 8):
+        sr = _T.PRESET_SIGNAL_RANGES[_T.PresetSignalRanges(idx)]
+        add("hq_signal_preset%d" % idx, enc(1, lossless=True, picture_bytes=None, video_parameters=dict(luma_offset=sr.luma_offset, luma_excursion=sr.luma_excursion,
+            color_diff_offset=sr.color_diff_offset, color_diff_excursion=sr.color_diff_excursion)), "16-bit signal range preset %d (needs major_version 3)" % idx, slices=(2, 1))
     # pictures coded under major_version 3 (extended transform parameters present) without any feature that needs it:
     # individually valid data units, the stream as a whole is rejected (MajorVersionTooHigh)
     def enc_v3(**over):
